@@ -142,7 +142,94 @@ func seedsFor(verifDir, prop string) []string {
 	return out
 }
 
+// neutralFor: the confirmed behaviour-preserving refactorings written for this property, with the
+// verdict of the reference run ("silent" or "undecided").
+func neutralFor(verifDir, prop string) map[string]string {
+	var matrix map[string]string
+	b, err := os.ReadFile(filepath.Join(verifDir, "neutral", "MATRIX.json"))
+	if err != nil || json.Unmarshal(b, &matrix) != nil {
+		return nil
+	}
+	out := map[string]string{}
+	for nid, verdict := range matrix {
+		if strings.HasPrefix(nid, prop+"-") && (verdict == "silent" || verdict == "undecided") {
+			if _, err := os.Stat(filepath.Join(verifDir, "neutral", nid, "patch.diff")); err == nil {
+				out[filepath.Join(verifDir, "neutral", nid)] = verdict
+			}
+		}
+	}
+	return out
+}
+
 func thoroughExtras(c *Ctx, p *Property, verifDir string) (map[string]any, int) {
+	sens, code := sensitivityCheck(c, p, verifDir)
+	// the other direction: behaviour-preserving refactorings of this property's code must not be accused
+	neu := neutralFor(verifDir, p.ID)
+	self, err := os.Executable()
+	if err != nil {
+		return sens, 2
+	}
+	var dirs []string
+	for d := range neu {
+		dirs = append(dirs, d)
+	}
+	sort.Strings(dirs)
+	type neuResult struct {
+		Refactoring string `json:"refactoring"`
+		Applies     bool   `json:"applies"`
+		Verdict     string `json:"verdict"`
+	}
+	results := make([]neuResult, len(dirs))
+	sem := make(chan struct{}, 4)
+	var wg sync.WaitGroup
+	for i, d := range dirs {
+		wg.Add(1)
+		go func(i int, d string) {
+			defer wg.Done()
+			sem <- struct{}{}
+			defer func() { <-sem }()
+			r := runSeed(self, c.RepoDir, verifDir, d, p.ID)
+			nr := neuResult{Refactoring: filepath.Base(d), Applies: r.Applies}
+			switch {
+			case !r.Applies:
+				nr.Verdict = "skipped"
+			case r.Caught:
+				nr.Verdict = "alarm"
+			case strings.HasPrefix(r.Note, "exit 0"):
+				nr.Verdict = "silent"
+			default:
+				nr.Verdict = "undecided"
+			}
+			results[i] = nr
+		}(i, d)
+	}
+	wg.Wait()
+	silent, skipped := 0, 0
+	for i, r := range results {
+		switch {
+		case r.Verdict == "skipped":
+			skipped++
+		case r.Verdict == "alarm":
+			code = 2
+			fmt.Fprintf(os.Stderr, "NOISY property=%s refactoring=%s: a behaviour-preserving refactoring applied to the current tree is reported as a violation (false alarm of the rule set)\n", p.ID, r.Refactoring)
+		case r.Verdict == "undecided" && neu[dirs[i]] != "undecided":
+			code = 2
+			fmt.Fprintf(os.Stderr, "NOISY property=%s refactoring=%s: a behaviour-preserving refactoring applied to the current tree can no longer be decided\n", p.ID, r.Refactoring)
+		default:
+			silent++
+		}
+	}
+	fmt.Printf("neutrality property=%s refactorings=%d accepted=%d skipped=%d\n", p.ID, len(dirs), silent, skipped)
+	sens["neutral_refactorings"] = map[string]any{
+		"what":    "each confirmed behaviour-preserving refactoring written for this property (neutral/<id>/patch.diff) is applied to a scratch copy of the current tree; the quick check must stay silent (or undecided where the reference run was); static only",
+		"count":   len(dirs),
+		"accepted": silent, "skipped_patch_does_not_apply": skipped,
+		"results": results,
+	}
+	return sens, code
+}
+
+func sensitivityCheck(c *Ctx, p *Property, verifDir string) (map[string]any, int) {
 	seeds := seedsFor(verifDir, p.ID)
 	self, err := os.Executable()
 	if err != nil {
